@@ -647,7 +647,7 @@ func (d *LimbDom) Call(in *Interp, site ssa.Instruction, fn *ssa.Function, args 
 		}
 		return nil, true
 	}
-	if fn.Pkg == in.P.Field && fn.Name() == "mask64Bits" && len(args) == 1 {
+	if fn.Pkg == in.P.Field && load.ShortName(fn) == "field.mask64Bits" && len(args) == 1 {
 		if _, ok := args[0].(Int); ok {
 			return nil, false
 		}
